@@ -885,6 +885,11 @@ func (c *Compactor) WriteSnapshot(cache *Cache) ([]string, error) {
 	c.mu.Unlock()
 
 	if !enabled {
+		// The files that were completed before the snapshots were disabled are not going to be
+		// installed; do not leave them behind (CompactFull / CompactFast do the same).
+		if err := c.removeTmpFiles(files); err != nil {
+			return nil, err
+		}
 		return nil, errSnapshotsDisabled
 	}
 
